@@ -62,6 +62,10 @@ type Scheduler interface {
 	Release(req, id string)
 }
 
+// CallBudget bounds the application calls of one scenario: a logical,
+// deterministic stand-in for "fails to return".
+var CallBudget = 100000
+
 // World is the whole simulated application state.
 type World struct {
 	mu sync.Mutex
@@ -179,6 +183,10 @@ func (w *World) Snapshot() Snapshot {
 func (w *World) ev(c context.Context, kind string, fallible bool, args ...string) (idx int, inject bool) {
 	site := pubSite()
 	w.mu.Lock()
+	if len(w.Log) > CallBudget {
+		w.mu.Unlock()
+		panic("verif: call budget exceeded: the request made more than " + fmt.Sprint(CallBudget) + " application calls (unbounded recursion or loop?)")
+	}
 	e := Event{Seq: len(w.Log), Req: ReqOf(c), Kind: kind, Args: args, Site: site}
 	if fallible {
 		w.fallible++
